@@ -42,7 +42,7 @@ CLAIMS = {
    design="3.C08", technique=T),
  "C09": dict(
    text="Deductive proof (server half): AuthSession.Auth and sasl.Server.Next stubs require authAllowed (TLS or AllowInsecureAuth), a prior greeting and !didAuth at every real call site; handleAuth ensures didAuth changes only to true and only together with a 235, refusal codes for missing greeting / repeated AUTH / insecure connection without any mechanism call; STARTTLS erases didAuth.",
-   note=COMMON_NOTE + "Assumed: base64 stubs. Client half: Auth keeps in step with the server (every line written has had its reply read at each loop iteration, one line per step), lines are CR/LF-free.",
+   note=COMMON_NOTE + "Assumed: base64 stubs. Client half: Auth keeps in step with the server (every line written has had its reply read at each loop iteration, one line per step), lines are CR/LF-free. BOUNDED stand-in (not a proof, reported separately): the real Client.Auth against the real server over net.Pipe with scripted mechanisms on both sides (852 exchanges: absent/empty/binary initial responses, up to two challenge rounds, acceptance, refusal, client-side mechanism failure) - octets cross unaltered in both directions, the result is the server's final reply, the connection stays in command mode, a second AUTH after success gets 503 without consulting the mechanism.",
    design="3.C09", technique=T),
  "C10": dict(
    text="Deductive proof (server half): handleStartTLS accepted only when TLS is configured and not active (tls.Server stub preconditions), success path ensures all plaintext state gone (helo, didAuth, envelope, session logged out and cleared) and a NEW textproto.Conn with a new empty bufio.Reader and a new line limiter reading from the TLS connection (store of conn before init()), refusal/failed handshake changes nothing.",
